@@ -149,7 +149,66 @@ def c16_run(ctx):
     for a_, b_, k_ in obad:
         if k_.startswith("operand-modified"):
             problems.append((k_, f"{a_}: {b_}"))
-    return problems, {"calls_with_snapshot": n_calls}, samples
+    hp, hn = c16_histories(ctx)
+    problems += hp
+    return problems, {"calls_with_snapshot": n_calls, "history_steps": hn}, samples
+
+
+def c16_histories(ctx):
+    """HISTORIES on a few live operands: explicit in-place steps (ufuncs with out=, += -= *= /=, item / attribute assignment) mixed with
+    ordinary calls; after every ORDINARY call all live operands must be bit-for-bit what they were before it (an in-place step may of
+    course change its target - it is snapshotted again afterwards).  Catches state that an in-place step leaves behind and a later
+    ordinary call trips over.  -> (problems, number of steps)"""
+    r = C.rng(ctx.seed, "c16-hist")
+    problems, n_steps = [], 0
+    n_hist = 60 if ctx.tier == "quick" else 600
+    for h in range(n_hist):
+        sig = r.choice(C.ALLSIGS)
+        dim = len(sig) + 1
+        fl = r.choice("gm")
+        kind = r.choice(["np", "np", "obj"])
+        rows = operands(r, dim, fl, sig, n=4)
+        if kind == "np":
+            live = {"a": C.np_array(fl, sig, rows), "b": C.np_array(fl, sig, [list(reversed(rows))[i] for i in range(4)]), "c": C.np_array(fl, sig, rows[1:] + rows[:1])}
+        else:
+            live = {"a": C.obj_vec(fl, sig, rows[0]), "b": C.obj_vec(fl, sig, rows[1]), "c": C.obj_vec(fl, sig, rows[2])}
+        trace = []
+        inplace = [("numpy.add(a, b, out=c)", lambda L: numpy.add(L["a"], L["b"], out=L["c"])), ("numpy.subtract(b, a, out=a)", lambda L: numpy.subtract(L["b"], L["a"], out=L["a"])),
+                   ("numpy.multiply(a, 2.0, out=c)", lambda L: numpy.multiply(L["a"], 2.0, out=L["c"])), ("numpy.true_divide(b, 4.0, out=b)", lambda L: numpy.true_divide(L["b"], 4.0, out=L["b"])),
+                   ("a += b", lambda L: L["a"].__iadd__(L["b"])), ("c -= a", lambda L: L["c"].__isub__(L["a"])), ("b *= 1.5", lambda L: L["b"].__imul__(1.5)), ("c /= 2.0", lambda L: L["c"].__itruediv__(2.0))]
+        ordinary = [("rotateZ", lambda v, w: v.rotateZ(0.5)), ("scale", lambda v, w: v.scale(2.0)), ("v + w", lambda v, w: v + w), ("v - w", lambda v, w: v - w), ("unit", lambda v, w: v.unit()),
+                    ("v * 3", lambda v, w: v * 3.0), ("-v", lambda v, w: -v), ("abs", lambda v, w: abs(v)), ("dot", lambda v, w: v.dot(w)), ("v == w", lambda v, w: v == w),
+                    ("to_own", lambda v, w: getattr(v, "to_" + "".join(C.signames(sig)))()), ("to_xy", lambda v, w: v.to_xy()), ("isclose", lambda v, w: v.isclose(w)),
+                    ("to_Vector%dD" % dim, lambda v, w: getattr(v, "to_Vector%dD" % dim)())]
+        if dim >= 3:
+            ordinary += [("rotateX", lambda v, w: v.rotateX(0.3)), ("to_rhophiz", lambda v, w: v.to_rhophiz()), ("cross" if dim == 3 else "deltaR", lambda v, w: v.cross(w) if dim == 3 else v.deltaR(w))]
+        if dim == 4:
+            ordinary += [("boostX", lambda v, w: v.boostX(beta=0.25)), ("boost_p4", lambda v, w: v.boost_p4(w)), ("to_xyzt", lambda v, w: v.to_xyzt()), ("to_rhophietatau", lambda v, w: v.to_rhophietatau())]
+        if kind == "np":
+            ordinary += [("sum", lambda v, w: numpy.sum(v, axis=0)), ("v[1:]", lambda v, w: v[1:]), ("v[0]", lambda v, w: v[0])]
+        for step in range(r.randint(4, 10)):
+            n_steps += 1
+            if r.random() < 0.4:
+                name, f_ = r.choice(inplace)
+                trace.append(name)
+                try:
+                    f_(live)
+                except Exception:  # noqa: BLE001  (a rejected in-place step: the harness of C15 / C19 checks what it leaves behind)
+                    pass
+                continue
+            name, f_ = r.choice(ordinary)
+            vn, wn = r.sample(sorted(live), 2)
+            trace.append(f"{name}({vn},{wn})")
+            before = {k: snapshot(x) for k, x in live.items()}
+            try:
+                f_(live[vn], live[wn])
+            except Exception:  # noqa: BLE001
+                pass
+            changed = [k for k, x in live.items() if snapshot(x) != before[k]]
+            if changed:
+                problems.append((f"operand-modified:history:{kind}:{name}", f"{kind} {fl}:{sig}: after {trace[:-1]} the ordinary call {trace[-1]} changed operand(s) {changed}"))
+                break
+    return problems, n_steps
 
 
 # ------------------------------------------------------------------------------------------------ reductions (C17)
